@@ -71,6 +71,28 @@ theorem change_chunk {c : Cfg} (hc : c.Valid) (ms : List (Model Sym)) (x x' : Co
   obtain ⟨h1, h2, h3⟩ := locality_compare (CValid.of_valid hc) ms ms x x' hms hms hx hx' rfl hlen
   exact ⟨h1, h2, fun i hij => h3 i rfl (hsame i hij)⟩
 
+/-- **Changing the contents of the data arbitrarily** (same number of words on the compressed
+    stack, same number of leftover bits in the head – in particular two coders freshly built
+    by the same constructor from equally long data): whether and when the coder runs out of
+    data is unchanged – unconditionally –, and the symbol at every position whose chunk is
+    unchanged is unchanged.  Flipping bits that belong to chunk `j` therefore changes at most
+    symbol `j`. -/
+theorem change_data {c : Cfg} (hc : c.Valid) (ms : List (Model Sym)) (x x' : Coder)
+    (hms : ∀ m ∈ ms, m.WellFormed c.P) (hx : Inv c x) (hx' : Inv c x')
+    (hs : SameShape x.heads.compressed x'.heads.compressed)
+    (hl : x.compressed.length = x'.compressed.length) :
+    (decodeSymbols c ms x).1.length = (decodeSymbols c ms x').1.length ∧
+    (decodeSymbols c ms x).2.2 = (decodeSymbols c ms x').2.2 ∧
+    ∀ i : Nat,
+      (quantiles c ms.length x.heads.compressed x.compressed)[i]? =
+        (quantiles c ms.length x'.heads.compressed x'.compressed)[i]? →
+      (decodeSymbols c ms x).1[i]? = (decodeSymbols c ms x').1[i]? := by
+  have hv := CValid.of_valid hc
+  have hlen := quantiles_length_shape hv ms.length x.heads.compressed x'.heads.compressed
+    x.compressed x'.compressed hx.1.1 hx.1.2.1 hx'.1.1 hx'.1.2.1 hx.2.1 hx'.2.1 hs hl
+  obtain ⟨h1, h2, h3⟩ := locality_compare hv ms ms x x' hms hms hx hx' rfl hlen
+  exact ⟨h1, h2, fun i hq => h3 i rfl hq⟩
+
 /-- For `PRECISION == Word::BITS` the chunks are the words of the compressed stack themselves,
     so "bits inside chunk `j`" are literally the bits of word `j`. -/
 theorem chunks_word_aligned {c : Cfg} (hc : c.Valid) (hPW : c.P = c.W) (n hc' : Nat)
@@ -105,5 +127,6 @@ end CV.Chain.C14
 #print axioms CV.Chain.C14.symbol_i
 #print axioms CV.Chain.C14.replace_model
 #print axioms CV.Chain.C14.change_chunk
+#print axioms CV.Chain.C14.change_data
 #print axioms CV.Chain.C14.chunks_word_aligned
 #print axioms CV.Chain.C14.chunks_bounded
